@@ -3,6 +3,7 @@ module verifharness
 go 1.26.0
 
 require (
+	github.com/anishathalye/porcupine v1.3.0
 	github.com/gmrtd/gmrtd v0.0.0
 	github.com/osanderson/brainpool v1.0.0
 )
